@@ -9,7 +9,7 @@ import (
 func init() { register("C08", checkC08) }
 
 var c08Origins = []string{"literal", "literal-raw", "file", "file-dash", "file-blank", "stdin", "stdin-prompt", "stdin-last-unterminated", "cmd"}
-var c08Paths = []string{"print", "assign", "concat", "compare", "arg", "arg-direct", "return", "slice-store", "slice-literal", "slice-load-copy", "range-string", "range-nested", "range-slice", "subscript", "len", "write", "panic", "switch"}
+var c08Paths = []string{"print", "assign", "concat", "compare", "arg", "arg-direct", "return", "slice-store", "slice-literal", "slice-load-copy", "range-string", "range-nested", "multi-assign", "range-slice", "subscript", "len", "write", "panic", "switch"}
 
 // c08Program builds the program for one (origin, path) with value v. ok=false
 // when the combination is not defined (e.g. a raw literal cannot hold a backquote).
@@ -105,6 +105,12 @@ func c08Program(origin, path, v, place string) (bc BashCase, ok bool) {
 		stmts = append(stmts, def("t", SliceLit{TString, []Expr{sl("k")}}), SliceSet{"t", il(1), V}, VarDecl{Names: []string{"u"}, Type: TSliceString}, def("n", Copy{"u", vr("t")}), def("got", Index{"u", il(1)}), pr(vr("got")), pr(vr("n"), Index{"u", il(0)}))
 	case "range-string":
 		stmts = append(stmts, For{Kind: ForRange, RangeIdx: "i", RangeVal: "ch", Over: V, Body: []Stmt{pr(vr("i")), pr(vr("ch"))}}, pr(sl("end")))
+	case "multi-assign":
+		// the value in a value list next to a call whose callee runs a value list of its own
+		stmts = append([]Stmt{fn("flip", []Param{{"p", TString}, {"q", TString}}, []Type{TString}, def("x", vr("p")), def("y", vr("q")), Assign{[]string{"x", "y"}, []Expr{vr("y"), vr("x")}}, ret(vr("x")))}, stmts...)
+		stmts = append(stmts, VarDecl{Names: []string{"l", "r"}, Short: true, Values: []Expr{V, call("flip", sl("p"), V)}}, pr(vr("l")), pr(vr("r")),
+			Assign{[]string{"l", "r"}, []Expr{call("flip", V, sl("k")), vr("l")}}, pr(vr("l")), pr(vr("r")),
+			VarDecl{Names: []string{"m1", "m2", "m3"}, Short: true, Values: []Expr{sl("first"), V, call("flip", sl("a"), call("flip", sl("b"), V))}}, pr(vr("m1")), pr(vr("m2")), pr(vr("m3")))
 	case "range-nested":
 		// two loops over operands of different lengths inside each other, in both orders
 		stmts = append(stmts, For{Kind: ForRange, RangeIdx: "i", RangeVal: "a", Over: V, Body: []Stmt{For{Kind: ForRange, RangeIdx: "j", RangeVal: "b", Over: sl("xy"), Body: []Stmt{pr(vr("i"), vr("j")), pr(bin("+", vr("a"), vr("b")))}}}}, pr(sl("middle")),
@@ -113,7 +119,8 @@ func c08Program(origin, path, v, place string) (bc BashCase, ok bool) {
 		stmts = append(stmts, def("t", SliceLit{TString, []Expr{sl("k")}}), SliceSet{"t", il(1), V}, For{Kind: ForRange, RangeIdx: "i", RangeVal: "e", Over: vr("t"), Body: []Stmt{pr(vr("e"))}}, pr(sl("end")))
 	case "subscript":
 		n := len(v)
-		stmts = append(stmts, pr(Substr{"v", nil, nil}))
+		// a subscript of another, non-empty string runs first: what it left behind is not the answer for v
+		stmts = append(stmts, def("before", sl("world")), pr(Substr{"before", il(1), il(3)}), pr(Substr{"v", nil, nil}), pr(Substr{"before", il(0), il(1)}), pr(Substr{"v", il(0), nil}), pr(Substr{"v", nil, il(int64(n))}), pr(Len{Substr{"v", nil, nil}}))
 		for i := 0; i < n && i < 4; i++ {
 			stmts = append(stmts, pr(Index{"v", il(int64(i))}))
 		}
